@@ -187,6 +187,9 @@ def derivative_block(ctx, torch, g, n_scen, items, metas):
     from pfhedge.instruments import BrownianStock, EuropeanOption, EuropeanBinaryOption, AmericanBinaryOption, LookbackOption
     from pfhedge.nn import BlackScholes
     NAMES = ("c", "p", "bc", "bp", "ab", "lb")
+    MOD_KIND = {"c": ("european", True), "p": ("european", False), "bc": ("european_binary", True), "bp": ("european_binary", False),
+                "ab": ("american_binary", True), "lb": ("lookback", True)}
+    mod_reqs, mod_metas = [], []      # the module layer itself: Lean Model/Acquire.lean through the driver op bs_module
     STARTS = [("at-strike", 6), ("below", 2), ("above", 1), ("one-ulp-above", 1)]
 
     def gen_start(K, dtype):
@@ -300,6 +303,18 @@ def derivative_block(ctx, torch, g, n_scen, items, metas):
                                          ("ab", "american_binary_price", True), ("lb", "lookback_price", True)):
                         items.append((fn, call, e))
                         metas.append((scase | {"path": i, "step": j, "fn": fn, "call": call, "args": e}, float(pr[nm][i, j])))
+                # ... and the module layer: BlackScholes(derivative).price() on one whole path (every step with time to maturity > 0)
+                # against modulePrice of the model's module built from the same one-path market (input resolution included:
+                # log-moneyness, running maximum, time to maturity and volatility are formed by the model from spot / dt / strike)
+                i = g.choice(live)[0]
+                cells, row = [j for (i2, j) in live if i2 == i], [float(x) for x in spot[i]]
+                mkt = {"spot": enc_flt(row), "variance": enc_flt([sigma * sigma] * len(row)), "volatility": enc_flt([float(x) for x in stock.volatility[i]]),
+                       "listed": enc_flt(row), "dt": float_bits(dt), "strike": float_bits(K), "oracle": enc_flt([0.0] * len(row))}
+                for nm in NAMES:
+                    mod_reqs.append({"op": "bs_module", "kind": MOD_KIND[nm][0], "method": "price", "build": "from_derivative", "given": {}, "cells": cells,
+                                     "derivative": {"market": mkt, "call": MOD_KIND[nm][1], "simulated": True, "has_vol": True}})
+                    mod_metas.append((scase | {"path": i, "derivative": nm, "steps": cells}, [float(pr[nm][i, j]) for j in cells],
+                                      bool(getattr(bsm[(who, nm)], "call", True)), float(bsm[(who, nm)].strike)))
             return True
 
         simulate(route, n_paths, init, tseed)
@@ -324,6 +339,23 @@ def derivative_block(ctx, torch, g, n_scen, items, metas):
                        float(torch.tensor(K, dtype=cur)) if ev["start"] == "at-strike" else None)
             if ok and twin is not None:
                 ok = quote(twin, "copied:", stage + ": deep copy taken before the originals were simulated again", cur, who=f"copy {n_ev}")
+    try:
+        outs = ctx.driver(mod_reqs) if mod_reqs else []
+    except DriverBroken as e:
+        ctx.ties_broken.append({"kind": "driver", "detail": str(e)[:1500]})
+        outs = []
+    for (mcase, vals, call, strike), r in zip(mod_metas, outs):
+        con = r.get("construct", {}).get("ok")
+        if con is None or con["call"] != call or con["strike"] != float_bits(strike):
+            ctx.disagree("bs_module:construct", mcase, [call, strike], r.get("construct", r))
+            continue
+        ctx.evaluations += 1
+        for j, got, cell in zip(mcase["steps"], vals, r["cells"]):
+            mv = cell["value"]
+            if "ok" not in mv or not rel_close(got, float_of_bits(mv["ok"]), 1e-9, 1e-11):
+                ctx.disagree("bs_module:value", mcase | {"step": j}, got, mv | {"resolved": cell["resolved"]})
+                break
+            ctx.stats["bs_module:agreed:value_cells"] += 1
 
 
 def check(ctx):
@@ -425,4 +457,4 @@ def check(ctx):
              "functional or module) compared bit for bit with the one-element calls and checked against the point relations (non-trivial = regimes mixed); Black-Scholes modules reading simulated derivatives (BrownianStock float32/float64, "
              "decimal / random strikes, started exactly on / below / above the strike, 1-6 paths, 2-8 steps) checked against the point relations at every step with time to maturity > 0; "
              "six derivatives on ONE underlier, quoted again after 0-2 later events (underlier simulated again directly / through any of the six / through a seventh derivative, market cast to the other precision, deep copy taken "
-             "before the originals move on; pricing modules kept or rebuilt), spot and running maximum recomputed from the current stock.spot; two points of every float64 quote also sent to the model; distinct = sha1 of canonical case")
+             "before the originals move on; pricing modules kept or rebuilt), spot and running maximum recomputed from the current stock.spot; two points of every float64 quote also sent to the model, and one whole path of every float64 quote to the model of the MODULE layer (op bs_module: module built from the same one-path market, construction + price at every live step, rel 1e-9); distinct = sha1 of canonical case")
